@@ -83,11 +83,14 @@ type dacc = { dval : coq_N; dov : bool; dpanic : bool }
 
 val dec_push : dacc -> coq_N -> dacc
 
-val scan_dec : dacc -> coq_N -> coq_N list -> (dacc * coq_N) * coq_N list
+val scan_dec_with :
+  (dacc -> coq_N -> dacc) -> dacc -> coq_N -> coq_N list ->
+  (dacc * coq_N) * coq_N list
 
 val suffixed : coq_N -> coq_N list -> coq_N -> coq_N -> action
 
-val lex_decimal : coq_N -> coq_N list -> coq_N -> step
+val lex_decimal_with :
+  (dacc -> coq_N -> dacc) -> coq_N -> coq_N list -> coq_N -> step
 
 type hacc = { hval : coq_N; hdigits : bool; hov : bool }
 
@@ -138,7 +141,8 @@ val finish_lit : bool -> coq_N -> lit -> coq_N -> action
 
 val lex_literal : nat -> bool -> coq_N -> coq_N list -> coq_N -> step
 
-val lex_step : nat -> coq_N -> coq_N list -> coq_N -> step
+val lex_step_with :
+  (dacc -> coq_N -> dacc) -> nat -> coq_N -> coq_N list -> coq_N -> step
 
 val has_payload : tkind -> bool
 
@@ -154,9 +158,9 @@ val lr_cons : tok -> loop_result -> loop_result
 
 val lr_panic : bool -> loop_result -> loop_result
 
-val lex_loop :
-  nat -> coq_N list -> coq_N -> coq_N -> coq_N -> coq_N -> coq_N -> coq_N ->
-  coq_N -> coq_N -> loop_result
+val lex_loop_with :
+  (dacc -> coq_N -> dacc) -> nat -> coq_N list -> coq_N -> coq_N -> coq_N ->
+  coq_N -> coq_N -> coq_N -> coq_N -> coq_N -> loop_result
 
 val err_tok0 : coq_Z -> tok
 
@@ -167,7 +171,11 @@ type lex_outcome =
 | LexTooLong
 | LexRun of loop_result
 
-val lex_result : coq_N list -> lex_outcome
+val lex_result_with : (dacc -> coq_N -> dacc) -> coq_N list -> lex_outcome
+
+val lex_delta_with : (dacc -> coq_N -> dacc) -> coq_N list -> tok list
+
+val num_end_tokens_with : (dacc -> coq_N -> dacc) -> coq_N list -> coq_N
 
 val lex_delta : coq_N list -> tok list
 
